@@ -1,9 +1,43 @@
 import Pandora.Drv.Util
+import Pandora.Model.C12
+import Pandora.Spec.C12
 
 namespace Pandora.Drv.C12
-open Pandora.Drv
+open Pandora.Drv Pandora.Model.C12 Pandora.Spec.C12
 
-/-- stub: replaced when the property's model driver is written -/
-def handle : Handler := fun _ _ => ("-", "skip:not-built")
+def parsePart (s : String) : Option Part :=
+  match s.splitOn ":" with
+  | ["once", n] => do pure (.once (← n.toInt?))
+  | ["const", ops, ms] => do pure (.const (← ops.toInt?) (← ms.toInt?))
+  | ["step", f, t, st, ms] => do pure (.step (← f.toInt?) (← t.toInt?) (← st.toInt?) (← ms.toInt?))
+  | _ => none
+
+def parseParts (s : String) : Option (List Part) := (s.splitOn "+").mapM parsePart
+
+def parsePairs (s : String) : Option (List (String × Int)) :=
+  (splitList s).mapM fun p => match p.splitOn ":" with
+    | [a, b] => do pure (a, ← b.toInt?)
+    | _ => none
+
+def parseObs (kv : List (String × String)) : Option Obs := do
+  let binds ← (← parsePairs (getS kv "binds")).mapM fun (a, b) => do pure ((← a.toNat?), b)
+  pure { k := ← getN? kv "k", err := getS kv "err", mstart := ← getN? kv "mstart", fails := ← getN? kv "fails",
+         total := ← getN? kv "total", toks := ← parseInts (getS kv "toks"), ctoks := ← parseInts (getS kv "ctoks"),
+         binds, exits := ← parseInts (getS kv "exits"), cuts := ← parsePairs (getS kv "cuts") }
+
+def handle : Handler := fun input impl =>
+  match parseParts (getS (parseKV input) "startup"), parseObs (parseKV impl) with
+  | some parts, some o =>
+    -- the model's number of instances: every token released `margin` before the first cause, none released `margin` after it
+    let perinst := getS (parseKV input) "perinst" == "1"
+    let (lo, hi) := kBounds perinst o
+    let k := if o.k < lo then lo else if o.k > hi then hi else o.k
+    let mobs := " ".intercalate ((parseKV impl).map fun (a, b) =>
+      if a == "k" then s!"k={k}" else if a == "mstart" then s!"mstart={k}" else s!"{a}={b}")
+    let v := judge parts perinst o
+    let v := if v == "ok" && lo != hi then "skip:inconclusive-count-inside-margin" else v
+    (mobs, v)
+  | none, _ => ("-", "fail:driver:unparsable input")
+  | _, none => ("-", s!"fail:crash:unparsable observation {impl.take 120}")
 
 end Pandora.Drv.C12
